@@ -494,6 +494,9 @@ TEXT_EDITS = [
     ('opgraph.py', '                    if len(node1.eids[direction]) != 1:\n                        continue\n                    if len(node2.eids[direction]) != 1:\n                        continue',
      '                    if len(node1.eids[direction]) != 1 and len(node2.eids[direction]) != 1:\n                        continue',
      'violation', ['C16'], '_simplify_step: two skip guards merged with `and`'),
+    ('hamiltonian.py', '            for j in range(2, i):\n                graph.add_connect_edge(\n                    OpGraphEdge(eid_next, [self.a_ann_r[i][j].nid, self.a_ann_r[i][j + 1].nid], [(MolecularOID.Z, 1.)]))\n                eid_next += 1',
+     '            nodes_i = self.a_ann_r[i]\n            for j in range(2, i):\n                graph.add_connect_edge(\n                    OpGraphEdge(eid_next, [nodes_i[j].nid, nodes_i[j + 1].nid], [(MolecularOID.Z, 1.)]))\n                eid_next += 1',
+     'silent', ['C07'], 'generate_graph: local name for a row of a node-family table (benign)'),
     ('mps.py', '            v = v * s[:, None]', '            v = np.diag(s) @ v', 'silent', ['C13', 'C02'],
      'from_vector: singular values applied as a diagonal matrix (benign)'),
     ('mps.py', '            mps.qD[i + 1] = np.zeros(len(s), dtype=int)', '            mps.qD[i + 1] = np.zeros(len(idx), dtype=int)', 'silent',
